@@ -9,7 +9,7 @@ export GOFLAGS=-mod=mod GOPROXY=off GOSUMDB=off GOTOOLCHAIN=local
 cd /repo || exit 2
 if [ -n "$(git status --porcelain)" ]; then echo "repo working tree not clean"; exit 2; fi
 git apply "$PATCH" || { echo "PATCH-DOES-NOT-APPLY $PATCH"; exit 2; }
-trap 'git -C /repo checkout -- . ; git -C /repo clean -fdq' EXIT
+trap 'git -C /repo checkout -- . ; git -C /repo clean -fdq; (cd /verif && ./run.sh build >/dev/null 2>&1)' EXIT
 if go build ./... 2>/tmp/mutant-build.log && go test -count=1 ./... >/tmp/mutant-test.log 2>&1; then
   echo "suite: PASS"
 else
